@@ -741,15 +741,29 @@ def rule_r6(chk, prog):
             for r in walk_no_nested(f):
                 if not isinstance(r, ast.Return) or r.value is None:
                     continue
-                v = r.value
-                if isinstance(v, ast.Constant):
-                    if v.value:
-                        bad.append(r)
-                    continue
-                raise AnalysisError(
-                    f'C10.R6: {m.loc(r)}: {m.name}.{q} returns the '
-                    f'non-constant "{unparse(v)}"; whether it suppresses '
-                    'exceptions is not decided')
+                v = expand_locals(f, r.value)
+
+                def may_be_true(e):
+                    """False: certainly falsy; True: truthy for some
+                    state (a constant true value, or a value computed from
+                    the state of the object / the program)"""
+                    if isinstance(e, ast.Constant):
+                        return bool(e.value)
+                    if isinstance(e, ast.IfExp):
+                        return may_be_true(e.body) or may_be_true(e.orelse)
+                    if isinstance(e, ast.BoolOp) and isinstance(
+                            e.op, ast.And):
+                        return all(may_be_true(x) for x in e.values)
+                    if isinstance(e, ast.BoolOp):
+                        return any(may_be_true(x) for x in e.values)
+                    if isinstance(e, ast.UnaryOp) and isinstance(
+                            e.op, ast.Not):
+                        return not (isinstance(e.operand, ast.Constant)
+                                    and e.operand.value)
+                    return True
+
+                if may_be_true(v):
+                    bad.append(r)
             chk.check('C10.R6', f'{m.name}.{q}', 'returns nothing true',
                       not bad,
                       f'"{unparse(bad[0]) if bad else ""}": a true result '
